@@ -124,7 +124,7 @@ def run_tlc(module, cfg, workers=None, timeout=600, extra_files=None, simulate=N
         cfgname = cfg
     meta = tempfile.mkdtemp(prefix="meta.", dir=d)
     w = workers or NCPU
-    cmd = ["java", "-Xss512m", "-Xmx" + heap, "-XX:+UseParallelGC", "-XX:ParallelGCThreads=4"]
+    cmd = ["java", "-Xss512m", "-Xms128m", "-Xmx" + heap, "-XX:+UseParallelGC", "-XX:ParallelGCThreads=4"]
     if deque:
         cmd.append("-Dtlc2.tool.queue.IStateQueue=StateDeque")
     cmd += ["-cp", TLAJAR + ":" + CMJAR + ":.", "tlc2.TLC", "-metadir", meta, "-workers", str(w),
@@ -411,7 +411,7 @@ def _validate_chunk(module, chunk, timeout, cfg, max_rej, stateful, resync=None)
     while rest:
         d = prepare_spec_dir()
         write_ndjson(os.path.join(d, "trace.ndjson"), rest)
-        r = run_tlc(module, cfg, workers=1, timeout=timeout, specdir=d)
+        r = run_tlc(module, cfg, workers=1, timeout=timeout, specdir=d, heap="2g")
         shutil.rmtree(d, ignore_errors=True)
         if r.error_kind or (r.rc != 0 and not r.violated):
             raise InfraError("trace validation %s: TLC error\n%s" % (module, "\n".join(r.out.splitlines()[-30:])))
